@@ -294,6 +294,16 @@ class Engine:
             except Abort as e:
                 res.aborted.append(('abort', str(e), list(self.decisions)))
                 continue
+            if self.logv and self.pc:
+                # branch feasibility is decided on relaxations (1.3); with the exp-monotonicity facts linking energies and their
+                # monomial variables a path can turn out to have no model at all: it does not exist, nothing is stated on it
+                try:
+                    r_, _ = self.check(timeout_ms=10000)
+                except PathBudget:
+                    r_ = 'unknown'
+                if r_ == 'unsat':
+                    res.infeasible += 1
+                    continue
             res.npaths += 1
             if not decide:
                 res.raw.append((list(self.decisions), obs))
@@ -903,7 +913,11 @@ class Sym(numbers.Number):
             v = _numval(oz)
             if v is not None and v > 0:
                 return Sym(self.z % oz)
-            raise Unsupported('int %% non-positive or symbolic divisor')
+            if v is None:
+                c = Sym(oz).concretize()   # symbolic integer divisor: case split on its value (like __index__)
+                if c > 0:
+                    return self % c
+            raise Unsupported('int %% non-positive divisor')
         a, b = _coerce(self.z, oz)
         a = z3.ToReal(a) if z3.is_int(a) else a
         b = z3.ToReal(b) if z3.is_int(b) else b
